@@ -1,55 +1,260 @@
-import ZipVerif.Props.C12
+import ZipVerif.Lemmas.RawCopy
+import ZipVerif.Lemmas.AppendClosed
+import ZipVerif.Props.C03
 /-
-C14 — Raw copy transfers an entry bit-exactly without recompression.
-
-First layer (this file, until `Lemmas/WL*.lean` / `Lemmas/AppendClosed.lean` are merged), on the writer
-model and a fault-free sink:
-* `raw_copy_record_keeps_source_values`: after ANY further calls of the fragment and a successful
-  `finish()`, the central-directory record of a raw copy carries its source's CRC-32, compressed and
-  uncompressed sizes and method (nothing is recomputed from the bytes that flowed through the writer),
-  while ordinary entries carry the CRC-32 / length of their own bytes — neighbours are unaffected;
-The byte-level statement (the sink holds the source's raw bytes verbatim behind a header pre-filled from
-the source's metadata; the stored path, no encoder) is the subject of `Lemmas/WL*.lean`.
+C14 — Raw copy (`raw_copy_file` / `raw_copy_file_rename`): the source facts (what the reader hands to the
+copy) and the writer-side facts (what record is created, what reaches the sink, that `finish_file` does
+not re-patch it).  Proofs: `Lemmas/RawCopy.lean` (exact fault-free runs of `start_entry`,
+`raw_copy_file_rename`, `finish_file`), `Lemmas/ReadEntry.lean` (C03's `by_index_raw`).
 -/
 
 namespace ZipVerif.Props.C14
-open ZipVerif ZipVerif.Model
+open ZipVerif ZipVerif.Model ZipVerif.Spec.Zip ZipVerif.WL
 
-/-- Position `i` of the log is a raw copy of `src`. -/
-def IsRawCopyOf (e : Entry) (src : FileData) : Prop := e.raw = some src
+/-! ## 1. The source: what `by_index_raw` delivers for an entry of a well-formed archive -/
 
-theorem forall2_get {α β} {R : α → β → Prop} {l1 : List α} {l2 : List β} (h : Forall2 R l1 l2) :
-    ∀ (i : Nat) (a : α), l1[i]? = some a → ∃ b, l2[i]? = some b ∧ R a b := by
-  induction h with
-  | nil => intro i a h; simp at h
-  | cons hab _ ih =>
-    intro i a h
-    cases i with
-    | zero => simp at h; subst h; exact ⟨_, rfl, hab⟩
-    | succ n => simp at h; simpa using ih n a h
+/-- **`raw_copy_source`** — entry `i` of a layout: `by_index_raw(i)` read to the end yields the stored
+bytes `e.data` (from the data start computed out of the LOCAL header's lengths), and the metadata record
+the copy takes its values from is `viewEntry e …`, whose compressed size is the number of raw bytes and
+whose CRC / size / method / time / attributes are the central record's. -/
+theorem raw_copy_source (l : Layout) (hF : l.Fits) (i : Nat) (e : Entry)
+    (he : l.entries[i]? = some e) (d : Dev) (hd : d.buf = build l) :
+    ∃ off chs d', (localOffsets l.entries 0)[i]? = some off ∧
+      (archiveOf l).files[i]? = some (viewEntry e off l.pre.length chs) ∧
+      (byIndexRaw (archiveOf l) i).runPure d = (.ok (e.dataStart off l.pre.length, e.data), d') ∧
+      d'.buf = build l ∧
+      (let src := viewEntry e off l.pre.length chs
+       src.compressedSize = UInt64.ofNat e.data.length ∧ src.compressedSize.toNat = e.data.length ∧
+       src.crc32 = e.crc ∧ src.uncompressedSize = e.usize ∧ src.method = Method.fromU16 e.method ∧
+       src.time = DateTime.fromMsdos e.date e.time ∧
+       src.unixMode.map UInt32.toNat = unixModeSpec e.madeBy e.externalAttrs) := by
+  obtain ⟨off, chs, rest, h1, h2, h3, h4⟩ := entry_at l hF i e he
+  obtain ⟨off', d', h1', hrun, hb⟩ := C03.reader_entry_raw l hF i e he d hd
+  have : off' = off := by rw [h1] at h1'; cases h1'; rfl
+  subst this
+  refine ⟨off', chs, d', h1, h2, hrun, hb, rfl, ?_, rfl, rfl, rfl, rfl, ?_⟩
+  · exact u64_ofNat_toNat (by omega)
+  · exact C03.unix_mode_spec e off' l.pre.length chs
 
-/-- **The record of a raw copy carries the source's values; every other record its own.**  For every
-call sequence of the fragment (raw copies interleaved with ordinary entries in any order, misuse
-included) after which `finish()` succeeds: entry `i` of the directory written is — for a raw copy —
-the source's CRC-32, sizes and method under the requested name, and — for an ordinary entry — the
-CRC-32 and length of the bytes written to it. -/
-theorem raw_copy_record_keeps_source_values (ext : WExt) (calls : List C12.Call)
-    (hc : ∀ c ∈ calls, c.InFragment) (d : Dev) (v : Option Nat) (s' : WState) (d' : Dev)
-    (hfin : C12.step ext .finish (C12.runCalls ext calls WState.init none d).2.1 none
-      (C12.runCalls ext calls WState.init none d).2.2 = (.ok (.ok v, s'), d'))
-    (i : Nat) (e : Entry)
-    (he : (C12.logOf [] calls (C12.runCalls ext calls WState.init none d).1)[i]? = some e) :
-    ∃ f, s'.files[i]? = some f ∧ f.fileName = e.name ∧
-      match e.raw with
-      | some src => f.crc32 = src.crc32 ∧ f.compressedSize = src.compressedSize ∧
-          f.uncompressedSize = src.uncompressedSize ∧ f.method = src.method
-      | none => f.crc32 = Spec.Crc32.crc32 e.data ∧ f.uncompressedSize = UInt64.ofNat e.data.length := by
-  have h := C12.files_track_calls_partial ext calls hc d v s' d' hfin
-  obtain ⟨f, hf, hcl⟩ := forall2_get h i e he
-  refine ⟨f, hf, hcl.1, ?_⟩
-  have h2 := hcl.2
-  cases hr : e.raw with
-  | none => rw [hr] at h2; exact h2
-  | some src => rw [hr] at h2; exact h2
+/-! ## 2. The record a raw copy creates -/
+
+/-- **`raw_copy_record_spec`** — the record `start_entry` pushes for a raw copy of `src` under `name` at
+sink position `hs`: method, CRC, both sizes and the time stamp are the source's; `large_file` exactly
+when the larger of the two sizes exceeds 0xFFFFFFFF; host system Unix, version made by 46, not encrypted,
+no extra data, no comment; external attributes `mode << 16` where `mode` is the source's `unix_mode()` —
+and `0o100644` when the source has none.  So (as the model stands):
+* a source without mode (all-zero attributes, or a host other than DOS/Unix) becomes a regular 0644 file;
+* a Unix source whose upper attribute half is zero but whose lower half is not (`unix_mode() = Some(0)`)
+  gets attributes 0; the lower 16 bits (DOS attribute byte) of a Unix source are never copied;
+* a DOS source is converted: the mode derived from its directory / read-only bits, host Unix. -/
+theorem raw_copy_record_spec (src : FileData) (name : Bytes) (hs : Nat) :
+    let f := rawFile src name hs
+    f.method = src.method ∧ f.crc32 = src.crc32 ∧ f.compressedSize = src.compressedSize ∧
+    f.uncompressedSize = src.uncompressedSize ∧ f.time = src.time ∧ f.fileName = name ∧
+    f.largeFile = decide ((if src.compressedSize ≥ src.uncompressedSize then src.compressedSize
+                           else src.uncompressedSize) > 0xFFFFFFFF) ∧
+    f.externalAttributes = (src.unixMode.getD 0o100644) <<< 16 ∧
+    f.system = .unix ∧ f.versionMadeBy = 46 ∧ f.encrypted = false ∧ f.usingDataDescriptor = false ∧
+    f.extraField = [] ∧ f.fileComment = [] ∧ f.level = none ∧ f.aesMode = none ∧
+    f.headerStart = UInt64.ofNat hs :=
+  ⟨rfl, rfl, rfl, rfl, rfl, rfl, rfl, rfl, rfl, rfl, rfl, rfl, rfl, rfl, rfl, rfl, rfl⟩
+
+/-- The three cases of the attribute rule. -/
+theorem raw_copy_attributes (src : FileData) (name : Bytes) (hs : Nat) :
+    (src.unixMode = none → (rawFile src name hs).externalAttributes = 0x81A40000) ∧
+    (src.unixMode = some 0 → (rawFile src name hs).externalAttributes = 0) ∧
+    (∀ m, src.unixMode = some m → (rawFile src name hs).externalAttributes = m <<< 16) := by
+  refine ⟨fun h => ?_, fun h => ?_, fun m h => ?_⟩ <;>
+    · show (src.unixMode.getD 0o100644) <<< 16 = _
+      rw [h]; rfl
+
+/-- the reader's view of an all-zero-attribute entry has no mode: the copy becomes `-rw-r--r--` -/
+example : (viewEntry { C03.exA with externalAttrs := 0 } 0 0 0).unixMode = none := by decide +kernel
+/-- a Unix entry with only the DOS directory bit: `unix_mode() = Some(0)`, the copy gets attributes 0 -/
+example : (viewEntry { C03.exA with externalAttrs := 0x10 } 0 0 0).unixMode = some 0 ∧
+    (rawFile (viewEntry { C03.exA with externalAttrs := 0x10 } 0 0 0) [0x61] 0).externalAttributes = 0 := by
+  decide +kernel
+/-- a DOS read-only file: `unix_mode()` is 0o444 (the read-only mask also clears the file-type bits), so
+the copy is a Unix-host entry with mode 0o444 and no file type -/
+example : (rawFile (viewEntry { C03.exA with madeBy := 0x0014, externalAttrs := 0x21 } 0 0 0) [0x61] 0).externalAttributes
+    = (0o444 : UInt32) <<< 16 := by decide +kernel
+
+/-! ## 3. What reaches the sink -/
+
+/-- **`raw_copy_bytes_verbatim`** — fault-free run on an in-bounds sink, after `finish_file` has closed
+the previous entry (state `s1`, device `d1`): `raw_copy_file_rename` succeeds, the sink's live part
+(everything in front of the position) grows by exactly `local header ++ raw`, the bytes behind are
+untouched, and the state is `rawCopyState`: the record of §2 pushed with `data_start` at the header's
+end, `writing_to_file` and `writing_raw` set.  The raw bytes take the stored path
+(`Storer(Unencrypted)` before and after): no compressor is created (`switch_to` is not called by a raw
+copy) and nothing is buffered.  `hraw`: see `raw_len_ok`. -/
+theorem raw_copy_bytes_verbatim (ext : WExt) (src : FileData) (raw name : Bytes) (dp : UInt16)
+    (s s1 : WState) (d d1 : Dev)
+    (hn : name.length ≤ 65535) (hdp : src.time.datepart = some dp)
+    (hfin : finishFile ext s none d = (.ok (.ok (), s1), d1)) (hin : s1.inner = .storer none)
+    (hwe : s1.writingToExtraField = false) (hp1 : d1.pos ≤ d1.buf.length)
+    (hraw : raw.length ≤ 0xFFFFFFFF ∨ (rawFile src name d1.pos).largeFile = true) :
+    let hdr := ser (rawHeader src name dp d1.pos)
+    ∃ d2, rawCopy ext src raw name s none d =
+        (.ok (.ok (), rawCopyState s1 src raw name d1.pos hdr.length), d2) ∧
+      d2.pos = d1.pos + hdr.length + raw.length ∧
+      d2.buf.take d2.pos = d1.buf.take d1.pos ++ hdr ++ raw ∧
+      d2.buf.drop d2.pos = d1.buf.drop d2.pos ∧ d2.pos ≤ d2.buf.length ∧
+      (rawCopyState s1 src raw name d1.pos hdr.length).inner = .storer none := by
+  intro hdr
+  obtain ⟨d2, hrun, hb, hp⟩ := rawCopy_runs ext src raw name dp s s1 d d1 d1.buf d1.pos hn hdp hfin rfl rfl
+    hin hwe hp1 hraw
+  have hh : hdr = ser (rawHeader src name dp d1.pos) := rfl
+  rw [← hh] at hrun hb hp
+  clear_value hdr
+  have hlen : (d1.buf.take d1.pos ++ (hdr ++ raw)).length = d1.pos + (hdr ++ raw).length := by
+    rw [List.length_append, List.length_take, Nat.min_eq_left hp1]
+  refine ⟨d2, hrun, ?_, ?_, ?_, ?_, hin⟩
+  · rw [hp, List.length_append]; omega
+  · rw [hb, hp, ← hlen, List.take_left']
+    · simp only [List.append_assoc]
+    · rfl
+  · rw [hb, hp, ← hlen, List.drop_left' rfl, hlen]
+  · rw [hb, hp]
+    simp only [List.length_append, List.length_take, List.length_drop, Nat.min_eq_left hp1]
+    omega
+
+/-- `hraw` holds whenever the raw bytes have the length the source record announces (as they do when
+they come from `by_index_raw`, §1). -/
+theorem raw_len_ok (src : FileData) (raw name : Bytes) (hs : Nat)
+    (h : raw.length = src.compressedSize.toNat) :
+    raw.length ≤ 0xFFFFFFFF ∨ (rawFile src name hs).largeFile = true := by
+  by_cases hl : raw.length ≤ 0xFFFFFFFF
+  · exact Or.inl hl
+  · right
+    show decide ((if src.compressedSize ≥ src.uncompressedSize then src.compressedSize
+      else src.uncompressedSize) > ZIP64_BYTES_THR) = true
+    have e : ZIP64_BYTES_THR.toNat = 4294967295 := by decide
+    rw [decide_eq_true_eq]
+    apply UInt64.lt_iff_toNat_lt.mpr
+    split
+    · omega
+    · next hge =>
+      have : src.compressedSize.toNat ≤ src.uncompressedSize.toNat := by
+        have : ¬ src.uncompressedSize.toNat ≤ src.compressedSize.toNat :=
+          fun h' => hge (UInt64.le_iff_toNat_le.mpr h')
+        omega
+      omega
+
+/-- The starting points `hfin` covers without further work: a writer just opened by `new_append`, or
+whose current entry is itself a raw copy (`writing_raw`): `finish_file` does no I/O. -/
+theorem finish_before_raw_copy (ext : WExt) (s : WState) (hin : s.inner = .storer none)
+    (hwe : s.writingToExtraField = false) (hwr : s.writingRaw = true) (d : Dev) :
+    finishFile ext s none d = (.ok (.ok (), { s with writingToFile := false, writingRaw := false }), d) :=
+  finishFile_raw ext s hin hwe hwr none d
+
+/-- … and a fresh writer without entries. -/
+theorem finish_before_first_entry (ext : WExt) (s : WState) (hin : s.inner = .storer none)
+    (hwe : s.writingToExtraField = false) (hwr : s.writingRaw = false) (hf : s.files = []) (d : Dev) :
+    finishFile ext s none d = (.ok (.ok (), s), d) :=
+  finishFile_empty ext s hin hwe hwr hf none d
+
+/-! ## 4. No re-patching -/
+
+/-- **`raw_copy_not_repatched`** — the `finish_file` that closes a raw copy (called by the next
+`start_*`, by `finish`, or by `Drop`) performs NO I/O at all — in particular no seek back to the local
+header — and leaves every record untouched: CRC, compressed and uncompressed size stay the source's, NOT
+the CRC/length of the raw bytes that `write` accounted in `stats`.  Only `writing_to_file` and
+`writing_raw` are reset. -/
+theorem raw_copy_not_repatched (ext : WExt) (s1 : WState) (src : FileData) (raw name : Bytes)
+    (p1 hlen : Nat) (hin : s1.inner = .storer none) (hwe : s1.writingToExtraField = false)
+    (fa : Option Nat) (d : Dev) :
+    let s3 := rawCopyState s1 src raw name p1 hlen
+    finishFile ext s3 fa d = (.ok (.ok (), { s3 with writingToFile := false, writingRaw := false }), d) ∧
+    (∃ f, s3.files.getLast? = some f ∧ f.crc32 = src.crc32 ∧ f.compressedSize = src.compressedSize ∧
+      f.uncompressedSize = src.uncompressedSize ∧ f.method = src.method ∧
+      f.dataStart = UInt64.ofNat (p1 + hlen) ∧ f.headerStart = UInt64.ofNat p1) := by
+  intro s3
+  refine ⟨finishFile_raw ext s3 hin hwe rfl fa d, _, List.getLast?_concat .., rfl, rfl, rfl, rfl, rfl, rfl⟩
+
+/-- The statistics DID count the raw bytes (so a non-raw `finish_file` would have overwritten the
+record with the CRC of the COMPRESSED bytes): it is `writing_raw` alone that protects the record. -/
+theorem raw_copy_stats (s1 : WState) (src : FileData) (raw name : Bytes) (p1 hlen : Nat) :
+    (rawCopyState s1 src raw name p1 hlen).statsBytes = raw.length ∧
+    hasherFinalize (rawCopyState s1 src raw name p1 hlen).statsHasher = Spec.Crc32.crc32 raw ∧
+    (rawCopyState s1 src raw name p1 hlen).writingRaw = true := ⟨rfl, rfl, rfl⟩
+
+/-! ## 5. The copy as a spec entry -/
+
+/-- **The bytes a raw copy adds are the spec's local bytes of an entry with the source's values**, and its
+record is `WL.Closed` for that entry: with `raw` of the announced length, `header ++ raw` is
+`localBytes` of `specEntry (rawFile src name p1) dp [] [] raw lv` (no gap, no descriptor, local version =
+the record's version needed), whose method / CRC / sizes / time are the source's. -/
+theorem raw_copy_is_entry (src : FileData) (raw name : Bytes) (dp : UInt16) (p1 : Nat)
+    (hdp : src.time.datepart = some dp) (hcs : src.compressedSize = UInt64.ofNat raw.length) :
+    let f := rawFile src name p1
+    let e := specEntry f dp [] [] raw f.versionNeeded
+    ser (rawHeader src name dp p1) ++ raw = e.localBytes ∧
+    Closed e p1 { f with dataStart := UInt64.ofNat (p1 + (ser (rawHeader src name dp p1)).length) } ∧
+    e.method = src.method.toU16 ∧ e.crc = src.crc32 ∧ e.usize = src.uncompressedSize ∧
+    e.csize = src.compressedSize ∧ e.data = raw ∧ e.time = src.time.timepart ∧ e.date = dp ∧
+    e.name = name := by
+  intro f e
+  refine ⟨?_, ?_, rfl, rfl, rfl, hcs.symm, rfl, rfl, rfl, rfl⟩
+  · rw [rawHeader_is_localRecord src raw name [] dp p1 hcs]
+    simp [e, f, Entry.localBytes, descriptor, specEntry]
+  · have h := closed_specEntry
+      { f with dataStart := UInt64.ofNat (p1 + (ser (rawHeader src name dp p1)).length) } dp [] [] raw
+      f.versionNeeded f.largeFile p1 hdp (by
+        have := centralZip64Bytes_length_le
+          { f with dataStart := UInt64.ofNat (p1 + (ser (rawHeader src name dp p1)).length) }
+        show _ + ([] : Bytes).length ≤ 65535
+        simp only [List.length_nil]; omega) hcs rfl rfl
+    exact h
+
+/-- End to end on the source side: copying entry `i` of a well-formed archive yields an entry with the
+SAME method code, CRC, sizes, DOS time/date and stored bytes as the source entry `e`. -/
+theorem raw_copy_preserves (e : Entry) (off pre chs : Nat) (name : Bytes) (p1 : Nat) :
+    let src := viewEntry e off pre chs
+    let f := rawFile src name p1
+    let c := specEntry f e.date [] [] e.data f.versionNeeded
+    c.method = e.method ∧ c.crc = e.crc ∧ c.usize = e.usize ∧ c.csize = e.csize ∧ c.data = e.data ∧
+    c.time = e.time ∧ c.date = e.date ∧ src.time.datepart = some e.date ∧
+    src.compressedSize = UInt64.ofNat e.data.length :=
+  ⟨method_roundtrip e.method, rfl, rfl, rfl, rfl, (msdos_roundtrip e.date e.time).2, rfl,
+    (msdos_roundtrip e.date e.time).1, rfl⟩
+
+/-! ## 6. Non-vacuity (kernel evaluation) -/
+
+open ZipVerif.Props.C03 (exA exB exL)
+
+def ext0 : WExt := { compress := fun _ _ b => b, zcEncrypt := fun _ b => b }
+
+/-- Open `build exL` for append, raw-copy its entry 1 (`exB`, a descriptor entry whose compressed size
+went through ZIP64) under the name "c": the hypotheses of §3 hold and the model computes the stated state
+and sink. -/
+example :
+    let s0 : WState := { WState.init with files := viewOf exL, comment := exL.comment, writingRaw := true }
+    let src := viewEntry exB 43 5 158
+    let d0 : Dev := { buf := build exL, pos := exL.cdStart, calls := 0 }
+    src.time.datepart = some exB.date ∧ exB.data.length = src.compressedSize.toNat ∧
+    d0.pos ≤ d0.buf.length ∧
+    (match rawCopy ext0 src exB.data [0x63] s0 none d0 with
+     | (.ok (.ok (), s), d) =>
+        d.buf.take d.pos == (build exL).take exL.cdStart ++ ser (rawHeader src [0x63] exB.date exL.cdStart) ++ exB.data &&
+        s.files == viewOf exL ++ [{ rawFile src [0x63] exL.cdStart with dataStart := UInt64.ofNat (exL.cdStart + 31) }] &&
+        s.writingRaw && s.writingToFile && s.inner == .storer none &&
+        (match finishFile ext0 s none d with
+         | (.ok (.ok (), s'), d') => s'.files == s.files && d'.buf == d.buf && d'.pos == d.pos && d'.calls == d.calls
+         | _ => false)
+     | _ => false) = true := by decide +kernel
+
+/-- … and the record differs from what a NON-raw `finish_file` would have computed: the source's CRC is
+the CRC of the uncompressed content, here the same 5 stored bytes, so take a source with another CRC. -/
+example :
+    let src := { viewEntry exA 0 0 0 with crc32 := 0xdeadbeef, uncompressedSize := 77 }
+    (match rawCopy ext0 src exA.data [0x63] WState.init none (Dev.ofBytes []) with
+     | (.ok (.ok (), s), d) =>
+        (match finishFile ext0 s none d with
+         | (.ok (.ok (), s'), _) => s'.files.map (fun f => (f.crc32, f.uncompressedSize, f.compressedSize)) ==
+              [(0xdeadbeef, 77, 5)] &&
+            hasherFinalize s'.statsHasher != 0xdeadbeef && s'.statsBytes == 5
+         | _ => false)
+     | _ => false) = true := by decide +kernel
 
 end ZipVerif.Props.C14
